@@ -332,7 +332,18 @@ func runC03(c *fw.Ctx) {
 			parRoot := append([]byte(nil), par.t.GetRoot()...)
 			isStale := !bytes.Equal(parRoot, t.openRoot)
 			c.Tracef("merge %s into %s (stale=%v)", t.name, par.name, isStale)
-			err := par.t.MergeMPTChanges(t.t)
+			var err error
+			if r.Intn(4) == 0 { // the remote-merge entry point: the child's change set handed over explicitly
+				newRoot, changes, deletes, startRoot := t.t.GetChanges()
+				if bytes.Equal(newRoot, par.t.GetRoot()) {
+					err = nil // nothing to merge (MergeMPTChanges treats equal roots the same way)
+				} else {
+					err = par.t.MergeChanges(newRoot, changes, deletes, startRoot)
+				}
+				c.Count("merges_via_MergeChanges", 1)
+			} else {
+				err = par.t.MergeMPTChanges(t.t)
+			}
 			t.closed = true
 			closeDesc(t)
 			switch {
@@ -457,7 +468,7 @@ func init() {
 		ID:    "C03",
 		Level: "exploration",
 		Rule: "each case is one block history: a base state (memory or persistent store), a block trie P layered over it, and 6..24 (quick) / 6..46 (thorough) steps drawn from {open a child of P or a grandchild, 1-3 insert/delete operations inside an open child, " +
-			"a direct write on P, merge a child into its parent (fresh or stale), discard a child}; several children are open at the same time. Two wirings alternate: a fresh cache per trie, and one block cache shared by per-trie transaction caches committed on merge. " +
+			"a direct write on P, merge a child into its parent (fresh or stale; MergeMPTChanges, or for a quarter MergeChanges with the child's GetChanges()), discard a child}; several children are open at the same time. Two wirings alternate: a fresh cache per trie, and one block cache shared by per-trie transaction caches committed on merge. " +
 			"Monitors: child view == parent-at-open ⊕ own writes (map model, after every child operation); the observation tuple (root, Iterate content, pending changes hash->encoding/old hash, pending deletes, start root) of every other open trie is byte-identical " +
 			"before/after child operations, discards and rejected merges; a stale merge must be rejected; after a successful merge parent root/content == child's; pending changes are keyed by the hash of their encoding and equal the stored node. " +
 			"non-trivial = block with at least one successful merge and at least one discard or stale merge; distinct by trace hash",
@@ -468,7 +479,7 @@ func init() {
 			return 40000
 		},
 		Run:    runC03,
-		Floors: map[string]int64{"blocks": 20000, "merges": 20000, "discards": 10000, "stale_merges": 2000, "tuple_comparisons": 100000, "child_ops": 100000, "blocks_with_grandchildren": 2000},
+		Floors: map[string]int64{"blocks": 20000, "merges": 20000, "discards": 10000, "stale_merges": 2000, "tuple_comparisons": 100000, "child_ops": 100000, "blocks_with_grandchildren": 2000, "merges_via_MergeChanges": 5000},
 		Assumptions: []string{
 			"after a parent's root moves (successful merge of a sibling or direct write), the remaining children are stale: only the rejection of their merge and the parent's unchangedness are checked, not their views",
 			"a stale child whose merge would change the parent must be rejected with an error (accepting it silently drops a published sibling)",
